@@ -188,7 +188,10 @@ type fwdHist struct {
 	started  bool
 	next     int64
 	withheld []int64
-	sent     map[uint16]sentRec // outgoing number -> last packet sent under it
+	sent     map[uint16]sentRec // outgoing number -> last packet sent under it (since the last re-synchronisation)
+	sentOld  map[uint16][]sentRec // what was sent under a number before earlier re-synchronisations
+	tsNow    map[uint32]bool      // RTP timestamps of packets stored since the last re-synchronisation
+	tsOld    map[uint32]bool      // ... and before it (the cache may still hold them under reused numbers)
 	stored   map[uint16][]byte  // source number -> bytes in the cache
 	flags    map[uint16]codecs.Flags
 	// C02 pid bookkeeping: source pid -> forwarded pid of in-order frames
@@ -218,7 +221,7 @@ func newFwdHist(t *tr.Trace, r *tr.Rand, stream string, vp8 bool, cacheCap int) 
 		panic(err)
 	}
 	return &fwdHist{t: t, r: r, v: v, vp8: vp8, mime: mime,
-		sent: map[uint16]sentRec{}, stored: map[uint16][]byte{}, flags: map[uint16]codecs.Flags{}}
+		sent: map[uint16]sentRec{}, sentOld: map[uint16][]sentRec{}, tsNow: map[uint32]bool{}, tsOld: map[uint32]bool{}, stored: map[uint16][]byte{}, flags: map[uint16]codecs.Flags{}}
 }
 
 func (h *fwdHist) before(r int64) int64 {
@@ -244,6 +247,7 @@ func (h *fwdHist) cstore(buf []byte, kf bool) {
 	}
 	ts := uint32(buf[4])<<24 | uint32(buf[5])<<16 | uint32(buf[6])<<8 | uint32(buf[7])
 	h.v.Store(f.Seqno, ts, kf, f.Marker, buf)
+	h.tsNow[ts] = true
 	h.stored[f.Seqno] = append([]byte{}, buf...)
 	h.flags[f.Seqno] = f
 	h.t.Op("-", "cstore", f.Seqno, ts, kf, f.Marker, flagsStr(f), buf)
@@ -368,7 +372,21 @@ func (h *fwdHist) write(buf []byte, inCache bool, kf bool) {
 	if resync {
 		h.withheld = nil
 		h.shiftK = 0 // the map starts afresh: delta 0
+		// the numbering restarts, but what was sent before may still be in the
+		// cache and may still be asked for: keep it as "sent under that
+		// number in an earlier numbering"
+		for o, rec := range h.sent {
+			l := append(h.sentOld[o], rec)
+			if len(l) > 4 {
+				l = l[len(l)-4:]
+			}
+			h.sentOld[o] = l
+		}
 		h.sent = map[uint16]sentRec{}
+		for ts := range h.tsNow {
+			h.tsOld[ts] = true
+		}
+		h.tsNow = map[uint32]bool{}
 		h.haveFwdPid = false
 		h.droppedFrames = 0
 		h.haveLastPid = false
@@ -507,9 +525,36 @@ func (h *fwdHist) nack(os []uint16) {
 			h.t.Fail("C03", "same_or_nothing", fmt.Sprintf("NACK %v answered with a packet numbered %d", os, o))
 			continue
 		}
+		if len(p) >= 8 {
+			ts := uint32(p[4])<<24 | uint32(p[5])<<16 | uint32(p[6])<<8 | uint32(p[7])
+			if h.tsOld[ts] && !h.tsNow[ts] {
+				// a packet of the sequence before a restart whose number the new
+				// sequence happens to reuse while the cache still holds it: a
+				// publisher restart with number reuse is outside the histories
+				// the property quantifies over
+				h.t.Note("nack-hit-packet-of-earlier-sequence")
+				continue
+			}
+		}
 		prev, ok := h.sent[o]
 		if !ok && h.shifted {
 			continue // sent before a state shift: only the model comparison applies
+		}
+		if olds := h.sentOld[o]; len(olds) > 0 {
+			// the number was (also) used before a re-synchronisation: the
+			// answer may be any packet that was sent under it
+			match := ok && bytes.Equal(prev.data, p)
+			for _, r := range olds {
+				if bytes.Equal(r.data, p) {
+					match = true
+				}
+			}
+			if match {
+				continue
+			}
+			if !ok {
+				prev, ok = olds[len(olds)-1], true
+			}
 		}
 		if !ok {
 			h.t.Fail("C03", "same_or_nothing", fmt.Sprintf("NACK of %d answered although nothing was sent under that number", o))
@@ -791,10 +836,11 @@ func runForward(t *tr.Trace, r *tr.Rand, n int) {
 				// the publisher's numbering jumps beyond the window (a restart or a
 				// long outage): the map re-synchronises, and nothing of the old
 				// numbering (deltas, withheld-frame count) may survive
-				g.seq += uint16(r.Range(8193, 30000))
-				if r.Bool() {
-					g.seq -= uint16(r.Range(16386, 60000))
-				}
+				// displacement beyond the window in BOTH directions: a number of
+				// the old sequence must not look like a late copy in the new one
+				// (a publisher does not reuse recent numbers for other packets)
+				g.seq += uint16(r.Range(8193, 57343))
+				recent = nil
 				h.t.Note("seqno-jump")
 			}
 			if r.Chance(1, 40) && len(h.withheld) > 0 {
@@ -853,6 +899,45 @@ func fwdCorpus(t *tr.Trace, r *tr.Rand) {
 			}
 			h.dump()
 		}
+	}
+	// F31: two long loss bursts, each inside the window, so that a packet
+	// sent 10000 numbers ago is still covered by the map and still in the
+	// cache (few packets arrived since); the receiver NACKs it.  The
+	// retransmission goes through Write again and must not restart the map:
+	// the packets that follow keep their numbers and what was withheld stays
+	// withheld.
+	for _, start := range []uint16{1000, 60000} {
+		h := newFwdHist(t, r, "corpus-nack-of-old-packet", true, 512)
+		h.pidBits = 15
+		g := &frameGen{seq: start, pid: 100, m15: true, tlayers: 2, slayers: 1, kfEvery: 1000, ts: 1000}
+		h.rates(400000, "524288", 524288, false, 1)
+		var early []uint16
+		for fi := 0; fi < 60; fi++ {
+			for _, p := range g.next(h, r) {
+				h.write(p, true, false)
+			}
+			if fi == 3 {
+				h.adjust()
+			}
+			if fi == 20 {
+				for o := range h.sent {
+					early = append(early, o)
+				}
+				sort.Slice(early, func(i, j int) bool { return early[i] < early[j] })
+			}
+			if fi == 25 || fi == 35 {
+				g.seq += 5000 // 5000 packets lost upstream
+			}
+		}
+		if len(early) > 6 {
+			h.nack(early[len(early)-6:])
+		}
+		for fi := 0; fi < 20; fi++ {
+			for _, p := range g.next(h, r) {
+				h.write(p, true, false)
+			}
+		}
+		h.dump()
 	}
 }
 
